@@ -31,7 +31,7 @@ Definition walk_result (w : W) (r : res (option iter)) : outcome (bool * W) :=
 
 Lemma walk_loop : forall fuel b err f1 i l o payload ps w,
   0 <= ioff i -> (Z.to_nat (ilen i - ioff i) < fuel)%nat ->
-  isPSIComplete_loop1 W fuel b err f1 i l o payload ps w = walk_result w (psi_walk fuel i) /\
+  isPSIComplete_loop1 W fuel f1 w ps l payload o i b err = walk_result w (psi_walk fuel i) /\
   psi_walk fuel i <> Panic /\ (forall c, psi_walk fuel i <> Err c).
 Proof.
   induction fuel as [|k IH]; intros b err f1 i l o payload ps w Hoff Hfuel; [lia|].
